@@ -41,12 +41,21 @@ func decodeNoResponseOption(v uint32) []codes.Code {
 // IsNoResponseCode validates response code against NoResponse option from request.
 // https://www.rfc-editor.org/rfc/rfc7967.txt
 func IsNoResponseCode(code codes.Code, noRespValue uint32) error {
-	suppressedCodes := decodeNoResponseOption(noRespValue)
-
-	for _, suppressedCode := range suppressedCodes {
-		if suppressedCode == code {
-			return ErrMessageNotInterested
-		}
+	// The option value is a bit map of response classes (the upper three bits of the code),
+	// not of individual codes: 2 -> 2.xx, 8 -> 4.xx, 16 -> 5.xx.
+	var pos uint32
+	switch code >> 5 {
+	case 2:
+		pos = 1
+	case 4:
+		pos = 3
+	case 5:
+		pos = 4
+	default:
+		return nil
+	}
+	if isSet(noRespValue, pos) {
+		return ErrMessageNotInterested
 	}
 	return nil
 }
